@@ -200,9 +200,9 @@ def _detailed_tag_parser(text: str, lineno: int, start_index: int) -> Token:
                 take_char()  # }
                 break
             else:
-                # False alarm, just a string
-                content = take_until_any(QUOTE_CHARS)
-                result_content.append(content)
+                # False alarm, the `%` is regular content. Take only this one character - the text
+                # that follows may contain the closing `%}`.
+                result_content.append(take_char())
                 continue
 
         # Take regular content until we hit a quote or potential closing tag
